@@ -167,6 +167,14 @@ theorem decodeVec_encodeVec {α : Type} (enc : α → List Nat) (dec : List Nat 
   simp only
   exact decodeSeq_encodeSeq enc dec xs rest h
 
+/-- the element stream of a concatenation is the concatenation of the element streams (justifies encoding a
+long vector piece by piece, as the driver does for the `huge` family) -/
+theorem encodeSeq_append {α : Type} (enc : α → List Nat) (xs ys : List α) :
+    encodeSeq enc (xs ++ ys) = encodeSeq enc xs ++ encodeSeq enc ys := by
+  induction xs with
+  | nil => rfl
+  | cons x xs ih => simp [encodeSeq, ih]
+
 /-- the number of elements decoded is the announced length -/
 theorem decodeSeq_length {α : Type} (dec : List Nat → Option (α × List Nat)) (n : Nat) (bs : List Nat)
     (xs : List α) (r : List Nat) (h : decodeSeq dec n bs = some (xs, r)) : xs.length = n := by
